@@ -4,6 +4,7 @@ use crate::gas::GasBinder;
 use crate::gateway::GatewayBinder;
 use crate::operators::OperatorsBinder;
 use crate::token::TokenBinder;
+use crate::upgrade::UpgradeBinder;
 use serde_json::Value as J;
 
 pub enum B {
@@ -11,6 +12,7 @@ pub enum B {
     Token(TokenBinder),
     Gas(GasBinder),
     Operators(OperatorsBinder),
+    Upgrade(UpgradeBinder),
 }
 
 impl B {
@@ -20,6 +22,7 @@ impl B {
             B::Token(b) => b.exec(act),
             B::Gas(b) => b.exec(act),
             B::Operators(b) => b.exec(act),
+            B::Upgrade(b) => b.exec(act),
         }
     }
     pub fn project(&mut self) -> J {
@@ -28,6 +31,7 @@ impl B {
             B::Token(b) => b.project(),
             B::Gas(b) => b.project(),
             B::Operators(b) => b.project(),
+            B::Upgrade(b) => b.project(),
         }
     }
 }
@@ -38,6 +42,7 @@ pub fn make_binder(module: &str, inst: &J, init: &J) -> B {
         "Token" => B::Token(TokenBinder::new(inst, init)),
         "GasService" => B::Gas(GasBinder::new(inst, init)),
         "Operators" => B::Operators(OperatorsBinder::new(inst, init)),
+        "Upgrade" => B::Upgrade(UpgradeBinder::new(inst, init)),
         m => panic!("unknown module {m}"),
     }
 }
